@@ -232,9 +232,13 @@ def run_polytope(task):
     with quiet():
         p = make_polytope(name)
     prev_maps = []
+    # variant "obs:0,2": the clauses (and with them every getter of the polytope) are only evaluated at the listed levels;
+    # at the other levels the polytope is subdivided without anybody looking at it
+    observed = set(range(K + 1)) if not variant.startswith("obs:") else {int(x) for x in variant[4:].split(",")}
     for k in range(K + 1):
         stats = {}
-        check_level(name, p, k, prev_maps, fails, stats)
+        if k in observed:
+            check_level(name, p, k, prev_maps if len(prev_maps) == k else [], fails, stats)
         per_level.append(stats)
         prev_maps.append({x: p.G.nodes[x].get("central_index") for x in p.G.nodes})
         if k < K:
@@ -252,7 +256,7 @@ def run_polytope(task):
 
 
 def plan(tier):
-    top = {"ico": 3, "cube3D": 3, "cube4D": 2} if tier == "quick" else {"ico": 4, "cube3D": 4, "cube4D": 2}
+    top = {"ico": 4, "cube3D": 4, "cube4D": 2}      # the property's full domain is cheap enough for the quick tier too
     return top
 
 
@@ -274,6 +278,12 @@ def run(tier, seed):
                              "negation closure": TOL_BIJ, "indices / order / prefixes": "exact"},
                  exhaustive=True)
     tasks = [(n, top[n], v) for n in ("cube4D", "cube3D", "ico") for v in ("plain", "getters")]
+    # observation histories: look at the polytope only at some levels (always at the last one)
+    for n in ("cube4D", "cube3D", "ico"):
+        K = min(top[n], 3)
+        subsets = {(K,), (0, K), (1, K), (0, 1, K) if K > 2 else (0, K)} if K >= 2 else {(K,)}
+        for sub in sorted(subsets):
+            tasks.append((n, K, "obs:" + ",".join(str(x) for x in sorted(set(sub)))))
     extra = tier != "quick"
     if extra:       # beyond the property's stated domain (hypercube to level 2): level 3 = 4160 nodes, ~7 min, plain history
         tasks.insert(0, ("cube4D", 3, "plain"))
